@@ -73,6 +73,7 @@ def build(ctx):
     part_raw_suffix(ctx, eng)
     part_safety_net(ctx, eng)
     part_segmentation_step(ctx, eng)
+    part_net_wiring(ctx, eng)
     validate(ctx)
 
 
@@ -293,6 +294,88 @@ def part_segmentation_step(ctx, eng):
         eng.stubs = []
 
 
+# ======================================================================================= (4) every rewriter named in the anchors hands its result to the safety net
+WIRED = [
+    dict(method='format_stmt', kind='result', strict=True),        # stmt.rs: the value returned IS the net's result
+    dict(method='rewrite_static', kind='option', strict=False),     # items.rs: `;` may be appended afterwards
+    dict(method='format_expr', kind='result', strict=False),        # expr.rs: attributes are combined afterwards
+]
+
+
+def part_net_wiring(ctx, eng):
+    """Under-constrained, every callee uninterpreted: on every path on which format_stmt / format_expr / rewrite_static returns a
+    text (Ok / Some), either that text is the source snippet copied verbatim, or recover_comment_removed was applied to the rewritten
+    text on that path with the node's own span. A path that returns a rewritten text past the net can lose a comment silently."""
+    rp = make_replay(ctx, 'wiring')
+    for spec in WIRED:
+        name = eng.find(spec['method'], free=True)
+        fn = eng.get_fn(name)
+        eng.stubs = []
+        eng.lenient = True
+        eng.unsupported_as_outcome = True
+        eng.inline_only = [re.compile(re.escape(spec['method']) + '$')]
+
+        def rcr(e, s_, a, c):
+            tok = e.fresh_str('net')
+            s_.trace.append(('net', a[0], a[1], tok))
+            return tok
+
+        def snip(e, s_, a, c):
+            tok = e.fresh_str('snippet')
+            s_.trace.append(('snippet', tok))
+            return tok
+        eng.stub(r'recover_comment_removed$', rcr, 'recover_comment_removed(new, span, context): observed, result = a fresh text')
+        eng.stub(r'RewriteContext::<.*>::snippet$|RewriteContext::snippet$', snip, 'RewriteContext::snippet(span) = the source text (a fresh text, observed)')
+        eng.stub(r'FileLines::is_all$', lambda e, s_, a, c: z3.BoolVal(True), 'no --file-lines selection')
+        st = State()
+        args = [eng.fresh_of_type(st, ty, 'a%d' % i) for i, (_, ty) in enumerate(fn.params)]
+        eng.block_budget = 400000
+        try:
+            outs = eng.run(name, args, st)
+        except Budget:
+            raise Inconclusive('net wiring: block budget exhausted in %s' % spec['method'])
+        finally:
+            eng.block_budget = None
+            eng.unsupported_as_outcome = False
+        ctx.paths += len(outs)
+        nret = nnet = 0
+        cut = [o for o in outs if o.kind in ('unsupported', 'unwind')]
+        for pi, o in enumerate(outs):
+            if o.kind != 'ret':
+                continue
+            v = o.value
+            if not isinstance(v, Enum):
+                raise Inconclusive('net wiring: %s returns %r' % (spec['method'], v))
+            good = 0 if spec['kind'] == 'result' else 1
+            pay = v.payloads.get(good)
+            if pay is None:
+                continue                           # this path can only return Err / None
+            is_text = v.discr == good
+            if not eng.feasible(o.state, is_text):
+                continue
+            nret += 1
+            nets = [t for t in o.state.trace if t[0] == 'net']
+            snippets = [t[1] for t in o.state.trace if t[0] == 'snippet']
+            text = pay.items[0]
+            verbatim = isinstance(text, StrVal) and any(text is s_ or (text.e is not None and s_.e is not None and text.e.eq(s_.e)) for s_ in snippets)
+            label = 'net-wiring/%s/p%d' % (spec['method'], pi)
+            if nets:
+                nnet += 1
+                if spec['strict']:
+                    same = isinstance(text, StrVal) and text.e is not None and text.e.eq(nets[-1][3].e)
+                    ctx.prop(label + '/returns-the-net-result', o.state.pc + [is_text], z3.BoolVal(not same), [], rp, twin=False)
+                continue
+            ctx.prop(label + '/a-rewritten-text-passes-the-safety-net(or is the verbatim snippet)', o.state.pc + [is_text], z3.BoolVal(not verbatim), [], rp, twin=False)
+        if nnet == 0:
+            ctx.inconclusive.append('net wiring: no path of %s reaches recover_comment_removed' % spec['method'])
+        if cut:
+            ctx.notes.append('net wiring/%s: %d of %d paths ended outside the executor (%s) and are not covered' % (spec['method'], len(cut), len(outs), str(cut[0].info)[:80]))
+        log('[C03] net wiring %s: %d paths, %d return a text, %d of them through the net' % (spec['method'], len(outs), nret, nnet))
+    eng.stubs = []
+    eng.lenient = False
+    eng.inline_only = None
+
+
 def depth_eq(d, want):
     if d is None:
         return z3.BoolVal(False)
@@ -314,14 +397,24 @@ CASES = [
 ]
 
 
-def native_findings():
+WIRING_CASES = [
+    ('const with value', 'const /* w1 */ A: u8 = 1;\n', ['w1']),
+    ('static with value', 'static B /* w2 */ : u8 = 2;\n', ['w2']),
+    ('associated const without value', 'trait T {\n    const /* w3 */ X: u8;\n    const Y /* w4 */ : u8;\n}\n', ['w3', 'w4']),
+    ('let statement', 'fn f() {\n    let /* w6 */ a = 1;\n    let b /* w7 */ : u8 = 2;\n}\n', ['w6', 'w7']),
+    ('expression', 'fn f() {\n    g(a as /* w8 */ u8);\n    h(!/* w9 */ b);\n}\n', ['w8', 'w9']),
+    ('const item in a body', 'fn f() {\n    const /* w10 */ K: u8 = 3;\n}\n', ['w10']),
+]
+
+
+def native_findings(which=None):
     bins = ensure_bins()
     rf = os.path.join(bins, 'rustfmt')
     d = os.path.join(BUILD, 'scratch', 'c03-%d' % os.getpid())
     shutil.rmtree(d, ignore_errors=True)
     os.makedirs(d)
     found = []
-    for name, src, words in CASES:
+    for name, src, words in (WIRING_CASES if which == 'wiring' else CASES + WIRING_CASES):
         p = os.path.join(d, 'x.rs')
         open(p, 'w').write(src)
         for cfg in ('max_width=100', 'max_width=40', 'normalize_comments=true,wrap_comments=true'):
@@ -333,12 +426,12 @@ def native_findings():
     return found
 
 
-def make_replay(ctx):
+def make_replay(ctx, which=None):
     cache = {}
 
     def replay(model, r):
         if 'f' not in cache:
-            cache['f'] = native_findings()
+            cache['f'] = native_findings(which)
         f = cache['f']
         return {'reproduced': bool(f), 'detail': f[:4]}
     return replay
